@@ -844,6 +844,10 @@ func c14Run(c *mon.Ctx, idx int) {
 		c14HookBuilt(c, r)
 		return
 	}
+	if idx%18 == 5 {
+		c14OddKeys(c, r)
+		return
+	}
 	var datum *univ.Node
 	var text string
 	var e xgen.Expr
@@ -1042,12 +1046,12 @@ func init() {
 	})
 	mon.Register(&mon.Prop{
 		ID: "C14", Level: "exploration",
-		Rule:        "two thirds of the cases: a map of 2..8 entries whose element outcomes mix true / false / error (ints, lists, maps, strings), quantified with any/all in every binding mode over 16 body templates (bodies that error independently of the element, bodies decisive on one key, nested quantifiers), also behind a pointer, nested, via JSON Pointer, under not/or; one third: datum-directed quantifier-heavy expressions over seeded documents. each call is repeated 120 (quick) / 200 (thorough) times on 3 insertion-order variants of the same logical map, with the same and with fresh evaluators; filters over the map's entries are repeated 90 times; one case in 18: nested quantifiers over collections that a pure WithHookFn hook builds afresh per request (maps from name/value lists, lists from strings; 12..64 short-lived collections of equal length per call), 27 calls in 5 legs whose hooks force a garbage collection on every / every 3rd / every 7th / no request. oracle: all repetitions give the same (bool, error-or-not). order_sensitive_cases counts cases whose outcome the reference says depends on the visiting order (the ones that can expose a defect). non-trivial = every case; distinct by (expression, datum)",
+		Rule:        "two thirds of the cases: a map of 2..8 entries whose element outcomes mix true / false / error (ints, lists, maps, strings), quantified with any/all in every binding mode over 16 body templates (bodies that error independently of the element, bodies decisive on one key, nested quantifiers), also behind a pointer, nested, via JSON Pointer, under not/or; one third: datum-directed quantifier-heavy expressions over seeded documents. each call is repeated 120 (quick) / 200 (thorough) times on 3 insertion-order variants of the same logical map, with the same and with fresh evaluators; filters over the map's entries are repeated 90 times; one case in 18: nested quantifiers over collections that a pure WithHookFn hook builds afresh per request (maps from name/value lists, lists from strings; 12..40 short-lived collections of equal length per call), 22 calls in 5 legs whose hooks force a garbage collection on every / every 3rd / every 7th / no request; one case in 18: quantifiers over maps keyed by integers, named strings, bools, floats, structs and arrays (2..8 entries, mixed element outcomes) in a struct, behind a pointer and in a generic document, 70 calls each. oracle: all repetitions give the same (bool, error-or-not). order_sensitive_cases counts cases whose outcome the reference says depends on the visiting order (the ones that can expose a defect). non-trivial = every case; distinct by (expression, datum)",
 		Assumptions: []string{"Go randomises the start of every map iteration; go_map_orders_seen_in_50_ranges reports what this run actually observed when ranging over the same maps"},
 		NumCases:    func(tier string) int { return tierN(tier, 2400, 40000) },
 		Run:         c14Run,
 		Required: func(tier string) []string {
-			return []string{"order_sensitive_cases", "interface_keyed_map_cases", "large_or_aliased_map_scenarios", "hook_built_collection_scenarios", "filter_repetitions", "go_map_order_probes", "directed_mode:0", "directed_mode:1", "directed_mode:2", "directed_mode:3", "outcome:T", "outcome:F", "outcome:E"}
+			return []string{"order_sensitive_cases", "interface_keyed_map_cases", "large_or_aliased_map_scenarios", "hook_built_collection_scenarios", "non_string_keyed_map_scenarios", "filter_repetitions", "go_map_order_probes", "directed_mode:0", "directed_mode:1", "directed_mode:2", "directed_mode:3", "outcome:T", "outcome:F", "outcome:E"}
 		},
 	})
 }
